@@ -26,7 +26,8 @@ def Args.push (a : Args) (x : Nat) : Args := { a with pos := x :: a.pos }
 /-- `f(*args)` if instance is None else `f(instance, *args)`.
     The test in the code is `is None`, which is exactly the `Option` here: a receiver token has no truth value in
     the model, so an instance (or class) that is FALSY - `__len__() == 0`, `__bool__() is False` - is prepended like
-    any other (the harness runs every instance binding with falsy receivers too; `C09_truthiness_history_irrelevant`). -/
+    any other BY CONSTRUCTION of the model (`C09_any_receiver`: arbitrary receiver tokens); that the code really tests
+    `is None` is checked by the harness, which runs every class-bound cell with falsy receivers too. -/
 def Args.pushOpt (a : Args) : Option Nat → Args
   | none => a
   | some x => a.push x
@@ -59,23 +60,38 @@ inductive Err where
 /-- what a call expression evaluates to -/
 inductive Res where
   | val (r : Reach)      -- the (eventual) result of running body `r`: its return value or the exception it raises
-  | fut (r : Reach)      -- a future (task, ConstFuture, ...) whose outcome is the result of running `r`
-  | nested (r : Reach)   -- a future whose VALUE is a future of `r` (an @asynq() body that returned a future object)
+  | gen (x : Res)        -- a GENERATOR OBJECT that has not been started; running it to the end produces `x`
+                         -- (what calling a generator function returns: its body is not entered by the call)
+  | futOf (x : Res)      -- a future (task, ConstFuture, ...) whose outcome is `x`
   | err (e : Err)
   deriving Repr, DecidableEq, Inhabited
 
-/-- `task_cls(generator_or_wrapper, fn, args, kwargs)` / `ConstFuture(x)`: a future of what the call produces -/
+/-- a future whose outcome is the result of running `r` -/
+@[match_pattern, reducible] def Res.fut (r : Reach) : Res := .futOf (.val r)
+
+/-- a future whose VALUE is a future of `r` (an @asynq() body that returned a future object) -/
+@[match_pattern, reducible] def Res.nested (r : Reach) : Res := .futOf (.futOf (.val r))
+
+/-- `ConstFuture(x)` / `task_cls(self._fn_wrapper(args, kwargs), ...)`: a future of what the call produces - whatever
+    that is (a value, a future, a generator object that nobody runs).  An exception raised by the call itself stays
+    that exception (whether it surfaces when the future is created or when it first runs is not observed). -/
 def Res.task : Res → Res
-  | .val r => .fut r
-  | .fut r => .nested r
-  | .nested r => .nested r
   | .err e => .err e
+  | x => .futOf x
+
+/-- `task_cls(generator, ...)` (decorators.py:183-187, `needs_wrapper`): the task RUNS the generator object it is
+    given, so its outcome is what the run produces.  Something that is not a generator has no `send`: the task fails
+    with AttributeError when it first runs. -/
+def Res.drive : Res → Res
+  | .gen x => .futOf x
+  | .err e => .err e
+  | _ => .futOf (.err .notFuture)
 
 /-- `.value()` (and, by C01, yielding it from a task): the outcome of the future -/
 def Res.value : Res → Res
-  | .fut r => .val r
-  | .nested r => .fut r
+  | .futOf x => x
   | .val _ => .err .notFuture
+  | .gen _ => .err .notFuture
   | .err e => .err e
 
 /-- a user wrapper_fn post-processes the value it awaited (`return wrap(value)`); exceptions pass through -/
@@ -172,8 +188,9 @@ def baseGet (d : Obj) (owner : Option Nat) (cls : Nat) : Obj :=
 
 /-- attribute access through an instance (`owner = some i`) or a class (`owner = none`): `type(o).__get__(o, owner, cls)`.
     A pure function: neither `DecoratorBase.__get__` nor the pair override keeps anything between two accesses
-    (each access of a pair builds a FRESH copy), so the result never depends on which accesses came before - the
-    harness checks that by looking the attribute up through the other paths first (`Case.pre`).
+    (each access of a pair builds a FRESH copy), so in the model the result cannot depend on which accesses came
+    before (by construction; no theorem is claimed for it) - that the CODE keeps nothing is checked by the harness,
+    which looks the attribute up through the other paths first (`Case.pre`, read by no function of the model).
     AsyncAndSyncPairDecorator.__get__ (decorators.py:263-280) first binds sync_fn, re-wraps fn in its
     staticmethod / classmethod type, builds a fresh pair decorator and applies the base `__get__` to it. -/
 def descrGet (o : Obj) (owner : Option Nat) (cls : Nat) : Obj :=
@@ -240,16 +257,20 @@ inductive Mode where
 def app (env : Env) : Mode → Obj → Args → Res
   | _, .pyNone, _ => .err .typeError                           -- 'NoneType' object is not callable
   -- user functions --------------------------------------------------------------------------------
-  | .call, .func b, a => if b.retFut then .fut ⟨b.id, a, false⟩ else .val ⟨b.id, a, false⟩
+  | .call, .func b, a =>
+    -- a generator function only BUILDS a generator object (the arguments are bound, the body is not entered)
+    if b.gen then .gen (.val ⟨b.id, a, false⟩)
+    else if b.retFut then .fut ⟨b.id, a, false⟩ else .val ⟨b.id, a, false⟩
   | .asynq, .func _, _ => .err .noAsynq
   | .call, .fwd needSelf mark cached t, a =>
+    -- a generator function: the call binds the arguments and hands back a generator object whose run is
     -- `value = yield target.asynq(...)`; `return value` (a user wrapper_fn returns `wrap(value)`)
     if needSelf ∧ a.pos = [] then .err .typeError
     else
       -- alru_cache (tools.py:236-243) / acached_per_instance (tools.py:194-206): `try: return cache[key]`
       match (if cached then env.cacheLookup (t.ident, env.keyOf a) else none) with
-      | some r => .val r
-      | none => if mark then (app env .asynq t a).value.mark else (app env .asynq t a).value
+      | some r => .gen (.val r)
+      | none => if mark then .gen (app env .asynq t a).value.mark else .gen (app env .asynq t a).value
   | .asynq, .fwd _ _ _ _, _ => .err .noAsynq
   | .call, .smethod f, a => app env .call f a                -- staticmethod objects are callable (3.10+)
   | .asynq, .smethod _, _ => .err .noAsynq
@@ -273,11 +294,11 @@ def app (env : Env) : Mode → Obj → Args → Res
     match c with
     | .pure =>
       -- PureAsyncDecorator.__call__ -> _call_pure (decorators.py:176-187)
-      if needsWrapper fn then (app env .call fn a).task      -- result = self.fn(*args, **kwargs)
+      if needsWrapper fn then (app env .call fn a).drive     -- result = self.fn(*args, **kwargs): a generator, run by the task
       else (app env .call fn a).task                         -- result = self._fn_wrapper(args, kwargs)
     | .async =>
       -- AsyncDecorator.__call__ (decorators.py:219-230): `self._call_pure(args, kwargs).value()`
-      if needsWrapper fn then (app env .call fn a).task.value else (app env .call fn a).task.value
+      if needsWrapper fn then (app env .call fn a).drive.value else (app env .call fn a).task.value
     | .pair => app env .call aux a                           -- decorators.py:261 `self.sync_fn(*args, **kwargs)`
     | .proxy => (app env .call fn a).value                   -- AsyncDecorator.__call__ over AsyncProxyDecorator._call_pure
     | .pairProxy => app env .call aux a                      -- decorators.py:319
@@ -291,7 +312,7 @@ def app (env : Env) : Mode → Obj → Args → Res
     | .pure => .err .noAsynq
     | .async | .pair =>
       -- AsyncDecorator.asynq (decorators.py:213-214) -> _call_pure
-      if needsWrapper fn then (app env .call fn a).task else (app env .call fn a).task
+      if needsWrapper fn then (app env .call fn a).drive else (app env .call fn a).task
     | .proxy | .pairProxy => app env .call fn a              -- AsyncProxyDecorator._call_pure (decorators.py:304-308)
     | .wrapper => app env .call aux a                        -- AsyncWrapper.asynq -> _call_async (decorators.py:430-437)
     | .dedup =>
@@ -382,6 +403,9 @@ inductive Access where
   | inst | cls | subInst | subCls
   deriving Repr, DecidableEq, Inhabited
 
+/-- the user's function is a plain function, a generator function, or a generator function that blocks on a batch.
+    The model distinguishes plain from generator functions (`Body.gen`: `needs_wrapper`, `Res.gen`); `gen` and `batch`
+    differ only in what the real body yields, which the model does not look at (scheduling is C01-C08's subject). -/
 inductive BodyKind where
   | plain | gen | batch
   deriving Repr, DecidableEq, Inhabited
@@ -492,7 +516,11 @@ def sibCallerArgs (ft : FnType) (acc : Access) (rel : Rel) (a : Args) : Args :=
 def identicalSib (ft : FnType) (acc : Access) (rel : Rel) (a : Args) : Bool :=
   !effRecv rel ft acc && a.pos.isEmpty && a.kw.isEmpty
 
-/-- the bindings each decorator is written for -/
+/-- the bindings the property speaks about: a module-level callable is a plain function (a bare staticmethod /
+    classmethod object outside a class is not a callable the decorators are applied to), and the function-style
+    wrappers aretry / alru_cache / acached_per_instance are written for functions and instance methods only
+    (acached_per_instance needs an instance).  Outside, the model does not follow the reference table
+    (`C09_supported_needed`), the generator produces no case and `spec` rejects every report. -/
 def supported (k : Kind) (ft : FnType) (acc : Access) : Bool :=
   (acc != .direct || ft == .plain) &&
   (match k with
@@ -543,8 +571,7 @@ structure CvRes where
 /-- evaluate a future that came back from a plain call, remembering that it was one (harness `value_of`) -/
 def valueOf (r : Res) : Res × Bool :=
   match r with
-  | .fut x => (.val x, true)
-  | .nested x => (.fut x, true)
+  | .futOf x => (x, true)
   | r => (r, false)
 
 /-- what `DeduplicateDecorator.asynq` leaves in `tasks` after `o.asynq(*a)` on an empty table -/
@@ -698,6 +725,15 @@ def Kind.hasAsynq : Kind → Bool
   | .raw | .pure | .proxyPure => false
   | _ => true
 
+/-- an UNDECORATED generator function (body kinds `gen`, `batch` are generator functions): ordinary Python - calling
+    it builds a generator object and runs nothing.  The library offers nothing that would run it: `async_call`,
+    `get_async_or_sync_fn` and `get_async_fn(wrap_if_none=True)` hand the generator object on. -/
+def Cell.rawGen (c : Cell) : Bool := c.kind == .raw && c.bk != .plain
+
+/-- REFERENCE: what a call that reaches body `r` hands to its caller in the end: the result of RUNNING the body -
+    except for an undecorated generator function, where it is the generator object -/
+def Cell.refVal (c : Cell) (r : Reach) : Res := if c.rawGen then .gen (.val r) else .val r
+
 /-- REFERENCE: the statement of C09 as a table (`refCv` below: the same, minus the conventions that are not run) -/
 def refCvRun (c : Cell) (cv : Cv) (a : Args) (rel : Rel) : CvRes :=
   let sib : Reach := ⟨1, refArgsSib c.ft c.acc rel a, c.kind.userWrapped⟩
@@ -705,18 +741,18 @@ def refCvRun (c : Cell) (cv : Cv) (a : Args) (rel : Rel) : CvRes :=
   let sync : Reach := ⟨2, refArgs c.ft c.acc 0 a, false⟩
   let tw : Reach := ⟨3, refArgs c.ft c.acc twinOff a, c.kind.userWrapped⟩
   match cv with
-  | .sync | .nestedSync => ⟨[], .val (if c.kind.hasSyncFn then sync else own), c.kind.pureLike⟩
+  | .sync | .nestedSync => ⟨[], c.refVal (if c.kind.hasSyncFn then sync else own), c.kind.pureLike⟩
   | .asynqValue | .yieldAsynq => ⟨[], if c.kind.hasAsynq then .val own else .err .noAsynq, false⟩
-  | .asyncCall | .asyncCallSync => ⟨[], .val own, false⟩
+  | .asyncCall | .asyncCallSync => ⟨[], c.refVal own, false⟩
   | .getAsyncFn => ⟨[], if c.kind == .raw then .err .noAsynq else .val own, false⟩
-  | .getAsyncOrSync => ⟨[], .val own, c.kind != .raw⟩
-  | .getAsyncFnWrap => ⟨[], .val own, false⟩
+  | .getAsyncOrSync => ⟨[], c.refVal own, c.kind != .raw⟩
+  | .getAsyncFnWrap => ⟨[], c.refVal own, false⟩
   | .twin => if c.kind.hasAsynq then ⟨[.val tw], .val own, false⟩ else ⟨[.err .noAsynq], .err .noAsynq, false⟩
   -- a second call of the same attribute - with another receiver or other argument objects, in flight or completed,
   -- whatever their hashes - changes nothing: each call runs the body with ITS receiver and ITS arguments
   | .sibling | .prior =>
     if c.kind.hasAsynq then ⟨[.val sib], .val own, false⟩ else ⟨[.err .noAsynq], .err .noAsynq, false⟩
-  | .siblingCall => ⟨[.val sib], .val own, false⟩
+  | .siblingCall => ⟨[c.refVal sib], c.refVal own, false⟩
 
 def refCv (c : Cell) (cv : Cv) (a : Args) (rel : Rel := .args) : CvRes :=
   if cv.isSib && identicalSib c.ft c.acc rel a then CvRes.skipped else refCvRun c cv a rel
@@ -845,6 +881,7 @@ inductive Outcome where
   | raisedUser (body : Nat)    -- the very exception body `body` raised
   | raised (c : ErrCls)
   | gotFuture                  -- a future object came back where the value was due
+  | gotGenerator               -- a generator object that nobody runs came back (an UNDECORATED generator function)
   deriving Repr, DecidableEq, Inhabited
 
 structure Entry where
@@ -870,19 +907,27 @@ def Err.cls : Err → ErrCls
   | .notFuture => .attrError
   | .skipped => .skipped
 
+/-- the arguments of the call that produced `r` do not bind to the parameters of the body -/
+def Res.bindFails (s : Sig) : Res → Bool
+  | .val x => (bind s x.args).isNone
+  | .gen x => x.bindFails s
+  | .futOf x => x.bindFails s
+  | .err _ => false
+
 /-- running a reached body: binding may fail (TypeError, body never entered) -/
-def execRes (s : Sig) (raises : Bool) (r : Res) : List Entry × Outcome :=
-  match r with
+def execRes (s : Sig) (raises : Bool) : Res → List Entry × Outcome
   | .val x =>
     (match bind s x.args with
      | some seen => ([⟨x.body, seen, true⟩], bodyOutcome raises x.body x.wrapped)
      | none => ([], .raised .typeError))
   | .err e => ([], .raised e.cls)
-  | .fut x | .nested x =>
-    -- a future object where a value was due: the function has been called (bound, entered) to produce it
-    (match bind s x.args with
-     | some seen => ([⟨x.body, seen, true⟩], .gotFuture)
-     | none => ([], .raised .typeError))
+  | .gen x =>
+    -- a generator object where a value was due: the arguments were bound when it was built (a TypeError surfaces
+    -- there), the body has NOT been entered and never will be
+    if x.bindFails s then ([], .raised .typeError) else ([], .gotGenerator)
+  | .futOf x =>
+    -- a future object where a value was due: what produced its outcome has happened (bound, entered)
+    if x.bindFails s then ([], .raised .typeError) else ((execRes s raises x).1, .gotFuture)
 
 /-- the observation of one convention.  The flag is only reported when no TypeError surfaced (whether a binding
     error surfaces when the future is created or when it first runs is not part of the observation). -/
@@ -912,8 +957,8 @@ structure Case where
   raises : Bool
   sig : SigKind
   args : Args
-  falsy : Bool := false          -- the generated instances and classes are falsy objects
-  pre : List Access := []        -- look-ups of the same attribute performed BEFORE the observed access
+  falsy : Bool := false          -- the generated instances and classes are falsy objects        } harness dimensions:
+  pre : List Access := []        -- look-ups of the same attribute BEFORE the observed access    } read by NO function here
   rel : Rel := .args             -- how the second call of `sibling` / `siblingCall` / `prior` differs
   vk : ValKind := .tok           -- what kind of objects the argument values (and receivers) are
   deriving Repr, DecidableEq, Inhabited
@@ -969,17 +1014,22 @@ def reportClause (e o : Report) : Option String :=
   (clsClause e.cls o.cls).orElse fun _ =>
   (if e.got != o.got then some "bound-receiver" else none)
 
-/-- `Spec.C09`: the observations are those of the reference semantics (vacuous outside the supported bindings) -/
+/-- `Spec.C09`: the cell is one the property speaks about (`supported`: the bindings each decorator is written for)
+    AND the observations are those of the reference semantics.  Outside the supported bindings NOTHING is accepted:
+    the generator never produces such a cell, and a report for one is rejected (`C09_spec_exact`). -/
 def spec (c : Case) (r : Report) : Bool :=
-  !supported c.cell.kind c.cell.ft c.cell.acc || (reportClause (refReport c) r).isNone
+  supported c.cell.kind c.cell.ft c.cell.acc && (reportClause (refReport c) r).isNone
 
 /-- the clause of `spec` that fails, for the verdict line -/
 def specClause (c : Case) (r : Report) : String :=
-  if spec c r then "ok" else (reportClause (refReport c) r).getD "unknown"
+  if spec c r then "ok"
+  else if !supported c.cell.kind c.cell.ft c.cell.acc then "unsupported-cell"
+  else (reportClause (refReport c) r).getD "unknown"
 
 /-! ## vocabulary of the theorems -/
 
-/-- the conventions that ask for the ASYNC side of the callable, and when the callable offers them:
+/-- the conventions that ask for the ASYNC side of the callable, and when the callable offers them
+    (`C09_available_needed`: where it is false the convention ends in a missing attribute):
     `.asynq` needs the attribute, `get_async_fn` needs something async; `async_call`,
     `get_async_or_sync_fn` and `get_async_fn(wrap_if_none=True)` accept anything callable.  (`sync`, `nestedSync` are the synchronous conventions.) -/
 def available (k : Kind) (cv : Cv) : Bool :=
@@ -1003,5 +1053,25 @@ def Env.idle (keyOf : Args → Args) : Env := { keyOf := keyOf, tasks := [] }
 /-- nothing in flight, nothing cached; ARBITRARY key function, hashes and raising flag -/
 def Env.quiet (keyOf : Args → Args) (hashOf : Nat → Nat) (raises : Bool) : Env :=
   { keyOf := keyOf, tasks := [], cache := [], hashOf := hashOf, raises := raises }
+
+/-- every entry of the function under test (identity 1) in an in-flight table / a cache was put there by a call of
+    THAT function: it holds the task (the value) of body 1 run with some arguments, under the key of those arguments.
+    Entries of other functions are unconstrained. -/
+def Table.ownConsistent (keyOf : Args → Args) (t : Table) : Prop :=
+  ∀ e ∈ t, e.1.1 = 1 → e.2.body = 1 ∧ e.2.wrapped = false ∧ e.1.2 = keyOf e.2.args
+
+/-- no entry of the function under test that runs with OTHER arguments sits under the key of arguments `x`: true when
+    the key function is injective (the library's default: the identity on the bound arguments) and when the table holds
+    no entry of the function at all (`separates_of_injective`, `separates_of_foreign`) -/
+def Table.separates (keyOf : Args → Args) (x : Args) (t : Table) : Prop :=
+  ∀ e ∈ t, e.1.1 = 1 → keyOf e.2.args = keyOf x → e.2.args = x
+
+/-- what Python prepends for a plain `def` / staticmethod / classmethod fetched through ANY instance (`owner = some i`)
+    or through the class (`owner = none`) of ANY class `cls` -/
+def pyPrefix (ft : FnType) (owner : Option Nat) (cls : Nat) : List Nat :=
+  match ft with
+  | .static => []
+  | .classm => [cls]
+  | .plain => owner.toList
 
 end AsynqModel.Decorators
